@@ -72,6 +72,7 @@ class Ctx:
         self.site_align_timeout_ms = 2000
         self.site_aligned = 0
         self._keep = []
+        self.atom_hooks = {}               # fname -> f(var, args) -> extra defining facts (harness-declared ranges of trigonometric atoms)
         self.fork_entail = False           # before forking, ask whether the path condition already decides the branch
         self.fork_entail_timeout_ms = 4000
         self.implied_forks = 0
@@ -141,6 +142,9 @@ class Ctx:
                 cs = self.atoms.get(("cos", args[0].get_id()))
                 if sn is not None and cs is not None:
                     d = d + [v * cs[0] == sn[0]]
+            hook = self.atom_hooks.get(fname) if self.atom_hooks else None
+            if hook is not None:
+                d = d + list(hook(v, args))
             if d:
                 self.defs.extend(d)
                 self.defof[v.get_id()] = (d, tuple(args))
